@@ -234,6 +234,81 @@ func scalarHelperPaths(call *ssa.Call) [][]*ssa.BasicBlock {
 	return out
 }
 
+// checkVolumeShare (R12.5): in mass = M·X/D with D a sum of several terms (volumes), X must be one of D's summands:
+// every monomial of the numerator contains all symbols of one and the same summand of D.
+func (pc *pathCtx) checkVolumeShare(name string, e poly, bad *map[string]string, okm map[string]bool) {
+	byDen := map[string]poly{}
+	for mono, c := range e {
+		if relClose(c, 0) || mono == "" {
+			continue
+		}
+		parts := strings.Split(mono, "*")
+		for i, sy := range parts {
+			if !strings.HasPrefix(sy, "/s") {
+				continue
+			}
+			var id int
+			if n, err := fmt.Sscanf(sy, "/s%d", &id); n != 1 || err != nil || id >= len(pc.syms) {
+				continue
+			}
+			rest := append(append([]string{}, parts[:i]...), parts[i+1:]...)
+			if byDen[sy] == nil {
+				byDen[sy] = poly{}
+			}
+			byDen[sy][strings.Join(rest, "*")] += c
+			break
+		}
+	}
+	for den, num := range byDen {
+		var id int
+		fmt.Sscanf(den, "/s%d", &id)
+		save := pc.cur
+		pc.cur = pc.syms[id].fr
+		D := pc.ex(pc.syms[id].v, 0)
+		pc.cur = save
+		var summands []string
+		for dm, dc := range D {
+			if dc > 0 && dm != "" && !strings.Contains(dm, "/") {
+				summands = append(summands, dm)
+			}
+		}
+		if len(summands) < 2 {
+			continue // not a sum of volumes
+		}
+		found := false
+		for _, dm := range summands {
+			need := map[string]int{}
+			for _, sy := range strings.Split(dm, "*") {
+				need[sy]++
+			}
+			all := true
+			for nm, nc := range num {
+				if relClose(nc, 0) {
+					continue
+				}
+				have := map[string]int{}
+				for _, sy := range strings.Split(nm, "*") {
+					have[sy]++
+				}
+				for sy, k := range need {
+					if have[sy] < k {
+						all = false
+					}
+				}
+			}
+			if all {
+				found = true
+			}
+		}
+		k := name
+		if found {
+			okm[k] = true
+		} else if _, seen := (*bad)[k]; !seen {
+			(*bad)[k] = fmt.Sprintf("%s is a mass times X divided by the sum of volumes (%s), but X is none of the volumes in that sum: the share taken is not a share of the whole and can exceed what is there (the clamp at zero then hides mass being created)", name, showPoly(D))
+		}
+	}
+}
+
 // boolConst: the constant a boolean value is bound to on this path (through phis and the results of inlined
 // helper calls), if any.
 func (pc *pathCtx) boolConst(v ssa.Value, depth int) (val, known bool) {
@@ -647,7 +722,8 @@ func checkMassBalance(p *Program, r *Report) {
 		names = append(names, n)
 	}
 	sort.Strings(names)
-	nModels, nPaths, nDeleg := 0, 0, 0
+	nModels, nPaths, nDeleg, nShares := 0, 0, 0, 0
+	r.Rule("R12.5", "shares are shares: where a stored mass or a mass output is computed as M·X/D with D a sum of volumes, X (a rate weighted by the timestep) is one of the summands of D on every path — so what is apportioned to the outflow or the store can never exceed the mass there is, and the final clamp at zero cannot hide mass being created")
 	nRemovals := map[*ssa.Call]bool{}
 	for _, name := range names {
 		spec := balTable[name]
@@ -940,11 +1016,13 @@ func checkMassBalance(p *Program, r *Report) {
 			feasible, flush bool
 			residual        poly
 			pc              *pathCtx
+			shareBad        map[string]string // mass expression → why its volume share is not a share
+			shareOK         map[string]bool
 		}
 		evaluate := func(path []*ssa.BasicBlock, frames map[*ssa.Call]*frame) verdict {
 			pc := newCtx(path, frames)
 			condVal := map[condKey]bool{}
-			vd := verdict{feasible: true, pc: pc}
+			vd := verdict{feasible: true, pc: pc, shareBad: map[string]string{}, shareOK: map[string]bool{}}
 			zeroIn := map[string]string{}
 			edge := func(fr *frame, a, b *ssa.BasicBlock, first bool) {
 				c, v, ok := edgeCond(a, b)
@@ -1030,7 +1108,9 @@ func checkMassBalance(p *Program, r *Report) {
 				}
 				for kk, pr := range l.Header.Preds {
 					if pr == last {
-						d = polyAdd(d, pc.ex(phi.Edges[kk], 0), 1)
+						sp := pc.ex(phi.Edges[kk], 0)
+						pc.checkVolumeShare("state `"+m.States[j]+"`", sp, &vd.shareBad, vd.shareOK)
+						d = polyAdd(d, sp, 1)
 					}
 				}
 				d = polyAdd(d, poly{fmt.Sprintf("S%d", j): 1}, -1)
@@ -1070,6 +1150,13 @@ func checkMassBalance(p *Program, r *Report) {
 					}
 				}
 				if !skip {
+					for _, sy := range strings.Split(mono, "*") {
+						if strings.HasPrefix(sy, "out") {
+							if oi, err := strconv.Atoi(sy[3:]); err == nil && oi < len(m.Outputs) {
+								pc.checkVolumeShare("output `"+m.Outputs[oi]+"`", term, &vd.shareBad, vd.shareOK)
+							}
+						}
+					}
 					outNow = polyAdd(outNow, term, 1)
 				}
 			}
@@ -1078,11 +1165,26 @@ func checkMassBalance(p *Program, r *Report) {
 			vd.residual = pc.clearDenominators(d)
 			return vd
 		}
+		shareBadAll, shareOKAll := map[string]string{}, map[string]bool{}
+		noteShares := func(v verdict) {
+			if !v.feasible || v.flush {
+				return
+			}
+			for k, w := range v.shareBad {
+				if _, seen := shareBadAll[k]; !seen {
+					shareBadAll[k] = w
+				}
+			}
+			for k := range v.shareOK {
+				shareOKAll[k] = true
+			}
+		}
 		for _, path := range paths {
 			vd := evaluate(path, nil)
 			if !vd.feasible {
 				continue
 			}
+			noteShares(vd)
 			pc := vd.pc
 			nPaths++
 			pkey := fmt.Sprintf("%s:path[%s]", key, pathKey(path))
@@ -1171,6 +1273,7 @@ func checkMassBalance(p *Program, r *Report) {
 					frames[c] = newFrame(c, inlPaths[i][choice[i]])
 				}
 				v2 := evaluate(path, frames)
+				noteShares(v2)
 				switch {
 				case !v2.feasible:
 					nInf++
@@ -1208,6 +1311,26 @@ func checkMassBalance(p *Program, r *Report) {
 		if nBal == 0 {
 			r.Fail("R12.2", key+":no-balanced-path", p.Pos(k.Pos()), "every path through a timestep is a flush path: the exemption swallows the whole model")
 		}
+		{
+			var ks []string
+			for kk := range shareOKAll {
+				ks = append(ks, kk)
+			}
+			for kk := range shareBadAll {
+				if !shareOKAll[kk] {
+					ks = append(ks, kk)
+				}
+			}
+			sort.Strings(ks)
+			for _, kk := range ks {
+				nShares++
+				if w, bad := shareBadAll[kk]; bad {
+					r.Fail("R12.5", key+":volume-share:"+kk, p.Pos(k.Pos()), m.Name+": "+w)
+				} else {
+					r.OK("R12.5", fmt.Sprintf("%s: %s is apportioned by one of the volumes that make up the divisor", key, kk))
+				}
+			}
+		}
 	}
 	r.Analysed["R12.2 models"] = nModels
 	r.Analysed["R12.2 feasible paths through one timestep"] = nPaths
@@ -1215,6 +1338,7 @@ func checkMassBalance(p *Program, r *Report) {
 	r.Floor("R12.2", "models with a mass budget", nModels, 7)
 	r.Floor("R12.3", "delegating calls", nDeleg, 1)
 	r.Floor("R12.4", "helper-computed removals", len(nRemovals), 1)
+	r.Floor("R12.5", "apportioned masses", nShares, 4)
 }
 
 // show renders a residual polynomial with the spec's names for canonical symbols and source positions for opaque ones.
